@@ -425,5 +425,12 @@ def run(tier, rep):
                          "exhaustive": True})
     rep.assumptions += ["operator trees: all shapes with <= 2 operator nodes over every operator, <= 3 nodes over one or two operators per precedence level"
                         " (sampled in the quick tier); leaves are variables; trivia drawn from {space, none, newline, tab, line comment}"]
+    # ---- which token a spelling is: the lexer against Lexer.tla on texts built from keywords, near-keywords, numbers with complete
+    # and incomplete suffixes, operators and their prefixes, string and multi-line string fragments (the character-level texts are C12's)
+    import lexercheck, corpus
+    lst = lexercheck.run(tier, rep, [(c["name"], open(c["src"]).read()) for c in corpus.single_file_cases()], parts=("pieces", "files"))
+    rep.coverage["lexer_specification"] = lst
+    rep.coverage["states"] += lst["states"]
+    rep.coverage["traces_validated_against_impl"] += lst["texts"]
     if ok < 500:
         raise ToolError("vacuity: fewer than 500 expression texts agreed")
